@@ -1,6 +1,7 @@
 package props
 
 import (
+	"bytes"
 	"encoding/json"
 	"fmt"
 	"testing"
@@ -209,6 +210,25 @@ func checkTxJSON(tx *gobinlog.Transaction) error {
 	if !json.Valid(out) {
 		return fmt.Errorf("output is not valid JSON: %.300s", out)
 	}
+	// the direct MarshalJSON call (what cmd/binlogDump does) must give the same bytes, and bytes it
+	// returned earlier must not change when further transactions are serialised
+	var direct []byte
+	if err := guard(func() (e error) { direct, e = tx.MarshalJSON(); return }); err != nil {
+		return fmt.Errorf("MarshalJSON failed: %v", err)
+	}
+	if !bytes.Equal(direct, out) {
+		return fmt.Errorf("MarshalJSON() and json.Marshal disagree: %.200s vs %.200s", direct, out)
+	}
+	for i := range retainedJSON {
+		r := &retainedJSON[i]
+		if r.got != nil && !bytes.Equal(r.got, r.want) {
+			w := r.want
+			retainedJSON = [4]retainedDoc{}
+			return fmt.Errorf("bytes returned by an earlier MarshalJSON call changed after a later call; they were %.200s", w)
+		}
+	}
+	retainedJSON[retainedJSONNext%len(retainedJSON)] = retainedDoc{got: direct, want: append([]byte{}, direct...)}
+	retainedJSONNext++
 	dec := json.NewDecoder(bytesReader(out))
 	dec.UseNumber()
 	var top map[string]interface{}
@@ -429,3 +449,8 @@ func TestC20(t *testing.T) {
 		}
 	})
 }
+
+type retainedDoc struct{ got, want []byte }
+
+var retainedJSON [4]retainedDoc
+var retainedJSONNext int
